@@ -14,16 +14,20 @@ STRUCTURAL = (r"Vec::<T, A>::(remove|swap_remove|truncate|clear|pop|drain|retain
               r"Extend<\(K, V\)>>::extend$|Extend<T>>::extend$")
 
 
-def field_mutations(prog, owner, field):
+ELEMENT_MUT = (r"IndexMut<\w*>>::index_mut$|IndexMut::index_mut$", r"Vec::<T, A>::(get_mut|iter_mut|last_mut|first_mut|as_mut_slice)$", r"<impl \[T\]>::(get_mut|iter_mut|last_mut|first_mut)$")
+
+
+def field_mutations(prog, owner, field, extra=()):
     """all structural mutations (calls on &mut of the field) and whole-field assignments; returns
-    list of (fn, kind, op, where)"""
+    list of (fn, kind, op, where).  `extra`: further callee patterns that count as mutation for this field (element access
+    by `&mut` for stores whose elements are write-once)"""
     out = []
     for f in sorted(prog.shape_fns(), key=lambda x: x.id):
         if f.body is None:
             continue
         tr = None
         for b, t in f.body.calls():
-            if not is_callee(t, *STRUCTURAL):
+            if not is_callee(t, *(STRUCTURAL + tuple(extra))):
                 continue
             tr = tr or Tracer(f.body)
             recv = tr.operand(t["args"][0])
@@ -44,9 +48,9 @@ def field_mutations(prog, owner, field):
     return out
 
 
-def check_writers(prog, rep, rule, owner, field, allowed, what):
+def check_writers(prog, rep, rule, owner, field, allowed, what, extra=()):
     """allowed: {(fn-name or id-suffix, op)}; anything else is a violation"""
-    muts = field_mutations(prog, owner, field)
+    muts = field_mutations(prog, owner, field, extra)
     n = 0
     for f, kind, op, where, b, t in muts:
         n += 1
@@ -381,6 +385,41 @@ def file_tables_grow_only(prog, rep, rule="E5.file"):
     n += check_writers(prog, rep, rule, "tsg::ast::File", "inherited_variables", {("parse_into_file", "insert")}, "every `inherit` declaration adds to the set")
     n += check_writers(prog, rep, rule, "tsg::ast::File", "globals", {("parse_into_file", "push")}, "every `global` declaration is appended")
     rep.floor(rule, n, 2, "writers of the file's declaration tables")
+    # … and every declaration that was parsed is recorded: no path from a successfully parsed item back to the top-level loop skips
+    # the table (a "don't record it twice" guard makes a repeated declaration invisible to the checker)
+    from ..engines.e1_div import failure_blocks
+    from ..lib.cfgq import natural_loops
+    pif = [f for f in prog.shape_fns() if f.name == "parse_into_file" and f.body is not None]
+    if len(pif) != 1:
+        rep.violation(rule, "anchor-lost:parse_into_file", "", "not found")
+        return n
+    f = pif[0]
+    body, tr = f.body, Tracer(f.body)
+    fail = failure_blocks(body)
+    loops = natural_loops(body)
+    for item, parser_pat, field, op_pat in (("global", r"Parser::<'a>::parse_global$", "globals", r"Vec::<T, A>::push$"),
+                                            ("stanza", r"Parser::<'a>::parse_stanza$", "stanzas", r"Vec::<T, A>::push$"),
+                                            ("inherit", r"Parser::<'a>::parse_identifier$", "inherited_variables", r"HashSet::<T, S, A>::insert$")):
+        ps = [(b, t) for b, t in body.calls() if is_callee(t, parser_pat)]
+        rec = set()
+        for b, t in body.calls():
+            if is_callee(t, op_pat):
+                recv = tr.operand(t["args"][0])
+                if any(x[0] == "place" and any(p_[0] == "field" and p_[1] == "tsg::ast::File" and p_[3] == field for p_ in x[2]) for x in walk(recv)):
+                    rec.add(b)
+        ok = bool(ps) and bool(rec)
+        for pb, pt in ps:
+            lp = [(h, bl) for h, bl in loops if pb in bl]
+            if not lp or pt.get("t") is None:
+                ok = False
+                continue
+            h, bl = max(lp, key=lambda x: len(x[1]))
+            r = body.reach_from([pt["t"]], avoid=rec | fail)
+            if h in r or (r & set(body.return_blocks())):
+                ok = False
+        rep.check(ok, rule, "parse_into_file :: every parsed %s is recorded" % item, f.loc(), "File.%s receives every successfully parsed %s" % (field, item),
+                  "a successfully parsed `%s` can be dropped before it reaches File.%s: the checker and the interpreters never see it" % (item, field))
+        n += 1
     return n
 
 
@@ -429,4 +468,86 @@ def no_dropped_elements(prog, rep, rule="E5.keep", files=("src/execution.rs", "s
             else:
                 rep.violation(rule, key, sp_str(t["sp"]), "%s on a collection of the interpreter in %s: elements (statements, attributes, values, deferred work) can be dropped, merged or reordered" % (op, f.id))
     rep.floor(rule, n, 14, "element-dropping / reordering calls in the interpreters")
+    return n
+
+
+def deferred_stores_append_only(prog, rep, rule="E5"):
+    """what the collection phase defers is never changed afterwards: thunks, deferred statements and scoped definitions are only
+    appended; a thunk slot is never handed out mutably (its value is fixed when it is created, forcing goes through the RefCell)"""
+    rep.rule(rule, "the deferred stores (LazyStore.elements, LazyGraph.*_statements, the Unforced pair list) are append-only during collection; no thunk is overwritten or handed out by `&mut`")
+    n = 0
+    n += check_writers(prog, rep, rule, "tsg::execution::lazy::store::LazyStore", "elements", {("add", "push")}, "thunks are only appended (a slot keeps the value it was created with)", extra=ELEMENT_MUT)
+    for fld in ("edge_statements", "attr_statements", "print_statements"):
+        n += check_writers(prog, rep, rule, "tsg::execution::lazy::statements::LazyGraph", fld, {("push", "push")}, "deferred statements are only appended", extra=ELEMENT_MUT)
+    n += check_writers(prog, rep, rule, "tsg::execution::lazy::store::LazyScopedVariables", "variables", {("add", "entry")}, "scoped names are only added")
+    rep.floor(rule, n, 5, "deferred-store mutation sites")
+    return n
+
+
+def no_text_keyed_tables(prog, rep, rule="E5.key"):
+    """identity is never decided by rendered text: no map or set in the library is keyed by a String / &str.  (The Display form of
+    a syntax node is `[syntax node kind (row, col)]` — two different nodes can print alike, so a cache or a de-duplication keyed by
+    text merges distinct nodes, values or statements.)  Names are `Identifier`s, nodes are ids."""
+    rep.rule(rule, "no HashMap / HashSet / BTreeMap / BTreeSet keyed by String or &str is used in the library (caches and de-duplication keyed by rendered text merge distinct values)")
+    pat = r"(HashMap|HashSet|BTreeMap|BTreeSet)::<(&(?:'\w+ )?str|std::string::String|&(?:'\w+ )?std::string::String)\b"
+    hits = []
+    n = 0
+    for f in sorted(prog.lib.fns.values(), key=lambda x: x.id):
+        if f.body is None or prog.is_absorbed(f):
+            continue
+        n += 1
+        for b, t in f.body.calls():
+            fr = callee_fn(t)
+            if fr and re.search(pat, fr.get("defargs") or ""):
+                hits.append((f, t, fr))
+    seen = set()
+    for f, t, fr in hits:
+        key = "%s :: %s" % (f.id, re.sub(r"<.*", "", fr.get("defargs") or "")[:40] + "…" + fr["def"].rsplit("::", 1)[-1])
+        if key in seen:
+            continue
+        seen.add(key)
+        rep.violation(rule, key, sp_str(t["sp"]), "a table keyed by text is used in %s (%s): distinct syntax nodes / values / statements that render alike are treated as one" % (f.name, (fr.get("defargs") or "")[:90]))
+    ctl = prog.control is not None and any(re.search(pat, (callee_fn(t).get("defargs") or "")) for cf in prog.control.fns.values() if cf.body is not None for _b, t in cf.body.calls() if callee_fn(t))
+    rep.control(rule, ctl, "planted HashSet<String> de-duplication is reported")
+    rep.ok(rule, "library bodies scanned", "", "%d bodies, %d text-keyed table uses" % (n, len(hits)))
+    return n
+
+
+_DEFERRED = ("tsg::execution::lazy::store::LazyScopedVariables", "tsg::execution::lazy::store::LazyStore", "tsg::execution::lazy::store::Thunk",
+             "tsg::execution::lazy::statements::LazyGraph")
+
+
+def collection_phase_is_blind(prog, rep, rule="E6.r"):
+    """while matches are being processed (the `*_lazy` functions of src/execution/lazy.rs) the deferred stores are write-only: a
+    value, a definition or a statement goes in through `add` / `push`, nothing is looked up.  A read during collection sees only what
+    earlier matches have put there, i.e. it depends on the order of stanzas and matches."""
+    rep.rule(rule, "the collection phase (src/execution/lazy.rs) never reads a field of the deferred stores (LazyStore, Thunk, LazyScopedVariables, LazyGraph), not even through a new accessor")
+    import json as _json
+    n = 0
+    bad = []
+    for f in sorted(prog.shape_fns(), key=lambda x: x.id):
+        if f.body is None or f.file != "src/execution/lazy.rs":
+            continue
+        n += 1
+        txt = _json.dumps(f.body.blocks if hasattr(f.body, "blocks") else [])
+        for adt in _DEFERRED:
+            if '"adt": "%s"' % adt in txt:
+                # find one place for the report
+                where, fld = "", "?"
+                for b in sorted(f.body.reachable()):
+                    for st in f.body.blocks[b]["stmts"]:
+                        s2 = _json.dumps(st)
+                        if '"adt": "%s"' % adt in s2 and '"k": "field"' in s2:
+                            where = sp_str(st["sp"])
+                            m = re.search(r'"adt": "%s", "name": "(\w+)"' % re.escape(adt), s2)
+                            fld = m.group(1) if m else fld
+                            break
+                    if where:
+                        break
+                bad.append((f, adt, fld, where))
+    for f, adt, fld, where in bad:
+        rep.violation(rule, "%s :: %s.%s" % (f.id, adt.rsplit("::", 1)[-1], fld), where,
+                      "%s looks into %s.%s while matches are still being processed: what it finds depends on which stanzas and matches came first" % (f.name, adt.rsplit("::", 1)[-1], fld))
+    rep.ok(rule, "collection-phase bodies scanned", "", "%d bodies in src/execution/lazy.rs, %d touch a deferred store's fields" % (n, len(bad)))
+    rep.floor(rule, n, 40, "collection-phase bodies")
     return n
